@@ -763,3 +763,23 @@ fire('norm14-walk-past-root', ['C20'], ['NORM-14'], 'the dedented-comment walk u
 silent('s-norm14-test-after-step', ['C20'], 'the walk tests for None right after the step instead of in the loop head',
        (PEP8, "                    while n is not None:\n                        if n.indentation is None or len(indentation)", "                    while True:\n                        if n.indentation is None or len(indentation)"),
        (PEP8, "                        if n == node:\n                            break\n                        n = n.parent\n", "                        if n == node:\n                            break\n                        n = n.parent\n                        if n is None:\n                            break\n"))
+
+# round 13: which of two coding declarations wins
+fire('rx5-greedy-first-line', ['C15', 'C01'], ['RX-5'], 'the optional first line of the declaration pattern is greedy: the declaration of line two wins over that of line one (rt13-C15)',
+     (UTILS, '            br"(?:[ \\t\\f]*(?:#[^\\r\\n]*)?(?:\\r\\n|\\r|\\n))??"', '            br"(?:[ \\t\\f]*(?:#[^\\r\\n]*)?(?:\\r\\n|\\r|\\n))?"'))
+_VERBOSE_DECL = """
+_ENCODING_DECLARATION = re.compile(br'''
+    (?:
+        [ \\t\\f]* (?: \\# [^\\r\\n]* )?     # a blank line or a comment ...
+        (?: \\r\\n | \\r | \\n )            # ... and its line end
+    )??
+    [ \\t\\f]* \\# [^\\r\\n]*?
+    coding [:=] [ \\t]* ([-\\w.]+)
+''', re.VERBOSE)
+
+
+class Version(NamedTuple):"""
+silent('s-rx5-verbose-module-level', ['C15', 'C01'], 'the declaration pattern is precompiled at module level with re.VERBOSE (lazy option kept)',
+       (UTILS, "\n\nclass Version(NamedTuple):", _VERBOSE_DECL),
+       (UTILS, '        possible_encoding = re.match(\n            br"(?:[ \\t\\f]*(?:#[^\\r\\n]*)?(?:\\r\\n|\\r|\\n))??"\n            br"[ \\t\\f]*#[^\\r\\n]*?coding[:=][ \\t]*([-\\w.]+)",\n            source\n        )\n',
+        '        possible_encoding = _ENCODING_DECLARATION.match(source)\n'))
